@@ -648,8 +648,11 @@ impl Bank {
             res = dispatch(&ix.program_id, &ordered, &ix.data);
             if res.is_ok() {
                 for inf in &infos {
-                    let a = Acct { lamports: inf.lamports(), data: inf.data.borrow().to_vec(), owner: *inf.owner, executable: false };
-                    self.accounts.insert(*inf.key, a);
+                    let before = self.get(inf.key);
+                    let a = Acct { lamports: inf.lamports(), data: inf.data.borrow().to_vec(), owner: *inf.owner, executable: before.executable };
+                    if a != before {
+                        self.accounts.insert(*inf.key, a);
+                    }
                 }
             }
         }
